@@ -32,6 +32,9 @@ def attr_conflict(d, s, name):
 def convert(atom, dtype):
     """Convert a value atom [typename, repr] to the destination dtype; returns atom or None."""
     tname, rep = atom[0], atom[1]
+    if tname in ("list", "tuple"):
+        # value of an n-tuple dtype (a list of n texts): fits an untyped Property and an n-tuple of that n
+        return atom if dtype is None or dtype == "%d-tuple" % (len(atom) - 1) else None
     v = eval(rep) if tname in ("int", "float", "str", "bool") else None
     if v is None and tname not in ("int", "float", "str", "bool"):
         return atom if dtype is None else None
@@ -56,6 +59,12 @@ def convert(atom, dtype):
 
 def _dt(p):
     return eval(p["dtype"][1]) if p.get("dtype") else None
+
+
+def is_tuple_pair(dp, sp):
+    """One of the two Properties is of an n-tuple dtype or holds n-tuple values."""
+    return any(isinstance(_dt(x), str) and _dt(x).endswith("-tuple") for x in (dp, sp)) or any(
+        v[0] in ("list", "tuple") for x in (dp, sp) for v in x["values"])
 
 
 def match_sec(children, c):
@@ -85,7 +94,12 @@ def classify(dest, src, strict):
                 continue
             dp = dp[0]
             ddt, sdt = _dt(dp), _dt(sp)
-            if any(convert(v, ddt) is None for v in sp["values"]) and ddt is not None:
+            if is_tuple_pair(dp, sp):
+                # the statement does not say whether (and into what) n-tuple values can be merged or converted: a
+                # refusal that changes nothing and a merge that fulfils the rest of the postcondition are both
+                # accepted
+                up("may-raise")
+            elif any(convert(v, ddt) is None for v in sp["values"]) and ddt is not None:
                 up("must-raise")
             if strict:
                 if ddt is not None and sdt is not None and ddt != sdt:
@@ -185,6 +199,8 @@ def post(before, src, after, strict):
         if av[:len(bv)] != bv:
             out.append(("dest-values-not-kept-in-order", "%s: %r -> %r" % (path, bv, av)))
             return
+        if is_tuple_pair(b, s) and _dt(b) != _dt(s):
+            return      # what an n-tuple value becomes in a Property of another dtype (and vice versa) is left open
         ddt = _dt(b) if _dt(b) is not None else _dt(s)
         conv = [convert(v, ddt) for v in s["values"]]
         added = av[len(bv):]
